@@ -385,42 +385,62 @@ def gen_lean(restores):
 
 
 # ------------------------------------------------------------------ real-time cross-check (thorough)
-def real_time_timelines():
-    """Three short timelines with real sleeps (<= 20 s in total); only claims with a safety margin."""
-    out = []
-    s = Server(real_time=True)
-    try:
-        def live():
-            return {i for i, *_ in s.observe()["live"]}
-        s.do(("create", {"seconds": 2}))                 # 0
-        s.do(("create", {"milliseconds": 4500}))         # 1
-        s.do(("create", {"seconds": 3, "milliseconds": 0, "microseconds": 0}))   # 2
-        s.do(("access", 2, "begin")); s.do(("access", 2, "step"))
-        time.sleep(1.2)
-        s.do(("keepalive", 0))
-        time.sleep(1.2)                                  # t = 2.4: instance 0 kept alive at 1.2 -> alive until 3.2
-        s.do(("metrics",))
-        if live() != {0, 1, 2}:
-            out.append(("real-time", f"t=2.4s: expected all three instances alive, live set {sorted(live())}"))
-        time.sleep(1.4)                                  # t = 3.8: 0 expired (3.2), 2 expired (3.0), 1 alive (4.5)
-        s.do(("fullmetrics",))
-        if live() != {1}:
-            out.append(("real-time", f"t=3.8s: expected only instance 1 alive, live set {sorted(live())}"))
-        ok, _ = s.do(("access", 2, "results"))           # externalised -> restored
-        if not ok or 2 not in live():
-            out.append(("real-time", "t=3.8s: externalised instance 2 not restored by the next request"))
-        ok, _ = s.do(("access", 0, "results"))
-        if ok or 0 in live():
-            out.append(("real-time", "t=3.8s: timed-out, not externalised instance 0 still served"))
-        time.sleep(1.0)                                  # t = 4.8: 1 expired
-        s.do(("metrics",))
-        if live() != {2}:
-            out.append(("real-time", f"t=4.8s: expected only the restored instance 2, live set {sorted(live())}"))
-        o = s.observe()
-        if sorted(o["destroyed"]) != [0, 1, 2]:
-            out.append(("real-time", f"destroy() calls {o['destroyed']} (expected one each for 0, 1, 2)"))
-    finally:
-        s.close()
+def real_time_timelines(notes=None):
+    """Short timelines with real sleeps (<= 20 s in total), wall clock untouched.  Every request is bracketed
+    by two clock readings [tb, ta]; a claim of the statement is only checked when it is decided whatever
+    instant inside the bracket the server read its clock (so machine load cannot raise a false alarm)."""
+    out, decided = [], 0
+    plans = [
+        [(0, ("create", {"seconds": 2})), (0, ("create", {"milliseconds": 4500})),
+         (0, ("create", {"seconds": 3, "milliseconds": 0, "microseconds": 0})), (0, ("access", 2, "begin")), (0, ("access", 2, "step")),
+         (1.2, ("keepalive", 0)), (1.2, ("metrics",)), (1.4, ("fullmetrics",)), (0, ("access", 2, "results")),
+         (0, ("access", 0, "results")), (1.0, ("metrics",))],
+        [(0, ("create", {"seconds": 1})), (0, ("create", {"minutes": 1})), (1.3, ("access", 0, "results")), (0.5, ("metrics",)),
+         (0.8, ("access", 1, "results")), (0, ("keepalive", 0))],
+    ]
+    for plan in plans:
+        s = Server(real_time=True)
+        try:
+            def now_us():
+                return (_dt.datetime.now() - s.t0) // US
+            before = s.observe()
+            for slp, ev in plan:
+                time.sleep(slp)
+                tb = now_us(); ok, rep = s.do(ev); ta = now_us()
+                after = s.observe()
+                b = {i: (l, t) for i, l, t, _ in before["live"]}
+                a = {i: (l, t) for i, l, t, _ in after["live"]}
+                target = ev[1] if ev[0] in ("access", "keepalive") else None
+                trigger = ev[0] in ("create", "metrics", "fullmetrics") or (
+                    target is not None and (target in b or (ev[0] == "access" and target in before["stored"])))
+                for k, (l, tau) in b.items():
+                    dcount = after["destroyed"].count(k) - before["destroyed"].count(k)
+                    if ta < l + tau:
+                        decided += 1
+                        if k not in a or dcount:
+                            out.append(("real-time", f"{ev} in [{tb},{ta}] µs: instance {k} (last {l}, timeout {tau}) removed/destroyed before its timeout"))
+                        elif target == k and not (tb <= a[k][0] <= ta):
+                            out.append(("real-time", f"{ev} in [{tb},{ta}] µs: timer of instance {k} not restarted ({a[k][0]})"))
+                    elif tb >= l + tau and trigger and target != k:
+                        decided += 1
+                        if k in a or dcount != 1:
+                            out.append(("real-time", f"{ev} in [{tb},{ta}] µs: expired instance {k} (last {l}, timeout {tau}) present={k in a}, destroy() x{dcount}"))
+                    elif tb >= l + tau and target == k and tau > 0:
+                        decided += 1
+                        if k not in a or not ok:
+                            out.append(("real-time", f"{ev} in [{tb},{ta}] µs: own access to the not yet swept instance {k} failed"))
+                if target is not None and target not in b:
+                    decided += 1
+                    if ev[0] == "access" and target in before["stored"]:
+                        if not ok or target not in a:
+                            out.append(("real-time", f"{ev}: externalised instance {target} not restored by the next request"))
+                    elif target not in before["stored"] and (ok or target in a):
+                        out.append(("real-time", f"{ev}: timed-out, not externalised instance {target} still served"))
+                before = after
+        finally:
+            s.close()
+    if notes is not None:
+        notes["real_time_claims_decided"] = decided
     return out
 
 
@@ -504,7 +524,7 @@ def run(chk):
     if not chk.quick:
         with contextlib.redirect_stdout(sink):
             t = time.time()
-            rt = real_time_timelines()
+            rt = real_time_timelines(chk.notes)
             chk.notes["real_time_s"] = round(time.time() - t, 1)
         for key, text in rt:
             chk.add_finding(key, text, {"real_time": True, "text": text})
